@@ -254,6 +254,17 @@ void MEDDLY::inter_mt::_compute(int L, unsigned in,
         }
     }
 
+    if (arg1F->isTerminalNode(A) && arg2F->isTerminalNode(B)) {
+        // Both terminal, neither forest is fully reduced:
+        // TRUE and B = B
+        edge_value dummy;
+        dummy.set();
+        MEDDLY_DCASSERT(copy_arg2res);
+        copy_arg2res->compute(L, in, dummy, B, dummy, C);
+        MEDDLY_DCASSERT(dummy.isVoid());
+        return;
+    }
+
     if ((A == B) && (arg1F==arg2F)) {
         // A and A = A
         edge_value dummy;
